@@ -46,6 +46,21 @@ def handle (j : Json) : R Json := do
   return jObj [("prefixes", Json.arr js.toArray), ("tripsCsv", jStr (tripsCsv full)),
                ("stopTimesCsv", jStr (stopTimesCsv full))]
 
+def stOfJson (j : Json) : R ST := do
+  return { stop := ← getStrD j "stop" [], arr := ← getOpt asInt j "arr", dep := ← getOpt asInt j "dep", track := ← getOpt asStr j "track",
+           lastObs := ← getIntD j "lastObs" 0, past := ← getOpt asInt j "past" }
+
+def tripOfJson (j : Json) : R Trip := do
+  return { uid := ← getStrD j "uid" [], tripId := ← getStrD j "tripId" [], route := ← getStrD j "route" [], dir := ← getNatD j "dir" 0,
+           start := ← getIntD j "start" 0, vehicle := ← getStrD j "vehicle" [], assigned := ← getBoolD j "assigned" false,
+           sts := ← getList stOfJson j "sts", lastObs := ← getIntD j "lastObs" 0, past := ← getOpt asInt j "past",
+           numUpdates := ← getIntD j "numUpdates" 0, numChanges := ← getIntD j "numChanges" 0, numRewrites := ← getIntD j "numRewrites" 0 }
+
+/-- export: the journal is given (it is the implementation's own), the model renders it -/
+def handleExport (j : Json) : R Json := do
+  let jn ← getList tripOfJson j "journal"
+  return jObj [("tripsCsv", jStr (tripsCsv jn)), ("stopTimesCsv", jStr (stopTimesCsv jn))]
+
 /-- directory source: names with the id (a feed's createdAt) each yields, null when unreadable or
     unparseable; the model predicts the sequence of ids `Next` yields -/
 def handleDir (j : Json) : R Json := do
